@@ -794,6 +794,18 @@ package originium
 //@ assigns *c
 //@ ensures err == nil && c.SkipListMaxLevel > 0 && c.MemtableByteThreshold > 0 && c.DataBlockByteThreshold > 0 && c.L0TargetNum > 0 && c.LevelRatio > 0 && c.ImmutableBuffer >= 0
 //
+// C02 (Close keeps the committed state on disk, one step): Close removes the wal of the active
+// memtable without flushing it only when size() reported an empty memtable; otherwise the memtable
+// goes through flushImmutable, whose own contract removes the wal only after the table is durable.
+// Thin: only this assertion (and the lock / wait-level clauses of the C12 / C15 sweeps) is claimed.
+//@ ghost CloseSize Int
+//@ func (*originium.DB).Close
+//@ props C02
+//@ thin ^assert
+//@ assigns writeset
+//@ after_call (*originium.memtable).size#0: ghost CloseSize = result
+//@ before_call (*wal.WAL).Delete#0: assert CloseSize <= 0
+//
 // C02 (timestamp continuity): the oracle restarts exactly one above the larger of the two recovered
 // maxima - so above every version recovery put into the memtable (memtable.recover: r >= RecMaxSeen)
 // and above every version of every installed table (levelManager.recover: r >= TabFloor): the first
